@@ -32,6 +32,7 @@ def hook_scenarios(rng, tier):
     n = {"quick": 1500, "thorough": 20000, "search": 4000}[tier]
     for _ in range(n):
         s = C07.gen_one(rng, tier)
+        s["prop"] = PROP
         # always_continue is the interesting argument for the return value: make it frequent
         if rng.random() < 0.5:
             s["cfg"]["args"]["always_continue"] = "true"
